@@ -17,13 +17,14 @@ import (
 // all versions and are never edited.
 
 type LEnt struct {
-	ID   int    `json:"id"`   // 1..999, unique
-	Kind string `json:"kind"` // func | method | ivar
-	Pkg  int    `json:"pkg"`
-	File int    `json:"file"` // entity file index within the package
-	Recv int    `json:"recv,omitempty"`
-	Tmpl int    `json:"tmpl"`
-	Dep  int    `json:"dep,omitempty"` // id of an entity its body calls (0 = none)
+	ID       int    `json:"id"`   // 1..999, unique
+	Kind     string `json:"kind"` // func | method | ivar
+	Pkg      int    `json:"pkg"`
+	File     int    `json:"file"` // entity file index within the package
+	Recv     int    `json:"recv,omitempty"`
+	Tmpl     int    `json:"tmpl"`
+	Dep      int    `json:"dep,omitempty"`      // id of an entity its body calls (0 = none)
+	Variadic bool   `json:"variadic,omitempty"` // func: declared func F(xs ...int) int
 }
 
 type LPkgDesc struct {
@@ -145,7 +146,18 @@ func (w *LiveWorld) EntLine(e *LEnt, v int) string {
 		}
 		return fmt.Sprintf("func (t *T%d) %s() int { %s }%s", e.Recv, e.name(), body, trailer)
 	}
+	if e.Variadic {
+		return fmt.Sprintf("func %s(xs ...int) int { %s }%s", e.name(), body, trailer)
+	}
 	return fmt.Sprintf("func %s() int { %s }%s", e.name(), body, trailer)
+}
+
+// ftype is the Go type of a captured function value of entity id.
+func (w *LiveWorld) ftype(id int) string {
+	if e := w.ent(id); e != nil && e.Variadic {
+		return "func(...int) int"
+	}
+	return "func() int"
 }
 
 func (w *LiveWorld) entFileName(pkg, file int) string { return fmt.Sprintf("ent%d.go", file) }
@@ -201,6 +213,7 @@ func (w *LiveWorld) Infra(pkg int) string {
 	}
 	ln(`import "host"`)
 	ln(`import "time"`)
+	ln(`import "fmt"`)
 	ln(`import "golang.org/x/exp/slices"`)
 	for p := 1; p < len(w.Pkgs); p++ {
 		ln("import %q", w.Pkgs[p].Path)
@@ -210,17 +223,18 @@ func (w *LiveWorld) Infra(pkg int) string {
 		ln("var P%d *T%d", t, t)
 	}
 	ln("type Holder struct { F func() int }")
+	ln("type HolderV struct { F func(...int) int }")
 	ln("var S int")
 	ln("var SA any")
 	ln("var N int")
 	for _, id := range w.FV {
-		ln("var FV%d func() int", id)
+		ln("var FV%d %s", id, w.ftype(id))
 	}
 	for _, id := range w.BM {
 		ln("var BM%d func() int", id)
 	}
 	for _, id := range w.SF {
-		ln("var H%d *Holder", id)
+		ln("var H%d *%s", id, map[bool]string{false: "Holder", true: "HolderV"}[w.ent(id).Variadic])
 	}
 	// capture functions: instances first (bound methods need them)
 	ln("func captureInst() {")
@@ -233,7 +247,7 @@ func (w *LiveWorld) Infra(pkg int) string {
 		ln("\tFV%d = %s", id, w.ref(w.ent(id), 0))
 	}
 	for _, id := range w.SF {
-		ln("\tH%d = &Holder{F: %s}", id, w.ref(w.ent(id), 0))
+		ln("\tH%d = &%s{F: %s}", id, map[bool]string{false: "Holder", true: "HolderV"}[w.ent(id).Variadic], w.ref(w.ent(id), 0))
 	}
 	for _, id := range w.BM {
 		e := w.ent(id)
@@ -255,7 +269,7 @@ func (w *LiveWorld) Infra(pkg int) string {
 		e := &w.Ents[i]
 		switch e.Kind {
 		case "func":
-			ln("\thost.Obs(\"d\", %d, %s())", e.ID, w.ref(e, 0))
+			ln("\thost.Obs(\"d\", %d, %s(%s))", e.ID, w.ref(e, 0), map[bool]string{false: "", true: "7, 8"}[e.Variadic && e.ID%2 == 0])
 		case "ivar":
 			ln("\thost.Obs(\"iv\", %d, %s)", e.ID, w.ref(e, 0))
 		case "zvar":
@@ -267,7 +281,7 @@ func (w *LiveWorld) Infra(pkg int) string {
 		}
 	}
 	for _, id := range w.FV {
-		ln("\tif FV%d != nil { host.Obs(\"fv\", %d, FV%d()) }", id, id, id)
+		ln("\tif FV%d != nil { host.Obs(\"fv\", %d, FV%d(%s)) }", id, id, id, map[bool]string{false: "", true: "5"}[w.ent(id).Variadic && id%2 == 1])
 	}
 	for _, id := range w.BM {
 		ln("\tif BM%d != nil { host.Obs(\"bm\", %d, BM%d()) }", id, id, id)
@@ -277,6 +291,9 @@ func (w *LiveWorld) Infra(pkg int) string {
 	}
 	for t := 1; t <= w.Types; t++ {
 		ln("\tif P%d != nil { host.Obs(\"fa\", %d, P%d.A) }", t, t, t)
+		// how a value of an unchanged type prints: a fresh instance, and the instance made before the reloads
+		ln("\thost.Obs(\"pr\", %d, len(fmt.Sprint(&T%d{A: 7, B: \"x\"})))", t, t)
+		ln("\tif P%d != nil { host.Obs(\"pr\", %d, len(fmt.Sprint(P%d))) }", t, 100+t, t)
 	}
 	ln("\thost.Obs(\"st\", 0, S)")
 	ln("\thost.Obs(\"sa\", 0, SA)")
@@ -379,7 +396,7 @@ func GenLiveWorld(r *core.PRNG) *LiveWorld {
 		}
 		for i := 0; i < nf; i++ {
 			id++
-			e := LEnt{ID: id, Kind: "func", Pkg: p, File: r.Intn(w.Pkgs[p].NFiles), Tmpl: r.Intn(5)}
+			e := LEnt{ID: id, Kind: "func", Pkg: p, File: r.Intn(w.Pkgs[p].NFiles), Tmpl: r.Intn(5), Variadic: r.Chance(1, 4)}
 			if len(funcs) > 0 && r.Bool() {
 				e.Dep = core.Pick(r, funcs)
 			}
